@@ -2,12 +2,15 @@
 // leaves.BurndownAnalysis.Fork/Merge (analysis level) with generated scenarios and records what they do.
 //
 // File-level case:      (case n (kind K) (nt b) (base len t0 (t p i d)...) (day d) (mode m)
-//                             (copies (c (t p i d)...) | (nil) ...) (obs ...))
-//   base = NewFile(t0, len) + Updates; copy j = clone of base (mode) + its own Updates; (nil) = a nil *File;
-//   then copies[0].Merge(day, copies[1:]...).
+//
+//	                          (copies (c (t p i d)...) | (nil) ...) (obs ...))
+//	base = NewFile(t0, len) + Updates; copy j = clone of base (mode) + its own Updates; (nil) = a nil *File;
+//	then copies[0].Merge(day, copies[1:]...).
+//
 // Analysis-level case:  (case n (kind K) (nt b) (people P) (track b) (setup ops...) (probe b path)
-//                             (copies (b ops...) ...) (obs ...))
-//   base analysis + setup ops; Fork(len(copies)); ops per branch; branches[0].Merge(branches[1:]).
+//
+//	                          (copies (b ops...) ...) (obs ...))
+//	base analysis + setup ops; Fork(len(copies)); ops per branch; branches[0].Merge(branches[1:]).
 package main
 
 import (
@@ -16,6 +19,7 @@ import (
 	"log"
 	"sort"
 	"strings"
+	"time"
 
 	"gopkg.in/src-d/hercules.v10/leaves"
 	"gopkg.in/src-d/hercules.v10/verifapi"
@@ -207,8 +211,28 @@ func runFile(fc *fcase) []Sx {
 	return obs
 }
 
+// watchdog: a case normally takes microseconds; code that loops forever (e.g. a tree read through the wrong
+// allocator) must not stall the check.  The stuck goroutine cannot be stopped, so after a few hangs the
+// remaining generated cases are skipped.
+var hangs int
+
+func guarded(run func() []Sx) []Sx {
+	ch := make(chan []Sx, 1)
+	go func() { ch <- run() }()
+	select {
+	case obs := <-ch:
+		return obs
+	case <-time.After(5 * time.Second):
+		hangs++
+		return []Sx{T("hang")}
+	}
+}
+
 func emitFile(c *Config, fc *fcase) {
-	obs := runFile(fc)
+	if hangs >= 3 {
+		return
+	}
+	obs := guarded(func() []Sx { return runFile(fc) })
 	c.Emit(append(fc.fields(), T("obs", obs...))...)
 }
 
@@ -602,12 +626,17 @@ func histSx(tag string, h [][3]int64) Sx {
 func runAna(ac *acase) []Sx {
 	var base *leaves.BurndownAnalysis
 	var brs []*leaves.BurndownAnalysis
+	var forked []Sx
 	msg, p := Catch(func() {
 		base = leaves.VerifC07New(ac.people, ac.track)
 		for _, o := range ac.setup {
 			applyAna(base, o)
 		}
 		brs = base.VerifC07Fork(len(ac.branches))
+		forked = []Sx{T("base", branchSx(base))}
+		for _, b := range brs {
+			forked = append(forked, T("b", branchSx(b)))
+		}
 		for j, ops := range ac.branches {
 			for _, o := range ops {
 				applyAna(brs[j], o)
@@ -622,7 +651,7 @@ func runAna(ac *acase) []Sx {
 		tick, author := b.VerifC07State()
 		pre[j] = T("b", branchSx(b), mergedSx(b), T("tick", I(tick)), T("author", I(author)))
 	}
-	obs := []Sx{T("pre", pre...), T("day", I(brs[0].VerifC07MergeTick())), histSx("hist0", brs[0].VerifC07GlobalHistory())}
+	obs := []Sx{T("forked", forked...), T("pre", pre...), T("day", I(brs[0].VerifC07MergeTick())), histSx("hist0", brs[0].VerifC07GlobalHistory())}
 	msg, p = Catch(func() { brs[0].VerifC07Merge(brs[1:]) })
 	if p {
 		return append(obs, T("res", T("panic", A(panicClass(msg)))))
@@ -666,7 +695,10 @@ func runAna(ac *acase) []Sx {
 }
 
 func emitAna(c *Config, ac *acase) {
-	obs := runAna(ac)
+	if hangs >= 3 {
+		return
+	}
+	obs := guarded(func() []Sx { return runAna(ac) })
 	c.Emit(append(ac.fields(), T("obs", obs...))...)
 }
 
@@ -839,6 +871,54 @@ func randAna(c *Config, kind string) *acase {
 	return ac
 }
 
+// exhaustive small scope at the analysis level: one path, nb branches, every combination of
+// (file absent | present) x (not flagged | flagged true | flagged true with a marked line | flagged false)
+func exhaustiveAna(c *Config, nb int) {
+	const opts = 8
+	total := 1
+	for j := 0; j < nb; j++ {
+		total *= opts
+	}
+	for code := 0; code < total; code++ {
+		x := code
+		ac := &acase{kind: fmt.Sprintf("ana-exh-%d", nb), people: 3 * (code % 2), track: code%3 == 0, probeB: code % nb, probeP: 0}
+		held, flagged := 0, false
+		ac.setup = []aop{{"tick", []int{1}}}
+		for j := 0; j < nb; j++ {
+			o := x % opts
+			x /= opts
+			present, flag := o%2 == 1, o/2
+			if present || flag == 2 {
+				held++
+			}
+			if flag == 1 || flag == 2 {
+				flagged = true
+			}
+			ops := []aop{}
+			if present {
+				ops = append(ops, aop{"tick", []int{2 + j%2}}, aop{"new", []int{0, j % 3, 2 + j%2, 2}})
+			}
+			ops = append(ops, aop{"begin", []int{1}})
+			switch flag {
+			case 1:
+				ops = append(ops, aop{"flag", []int{0, 1}})
+			case 2:
+				if present {
+					ops = append(ops, aop{"mu", []int{0, 1, 1, 1}})
+				} else {
+					ops = append(ops, aop{"mnew", []int{0, 2}})
+				}
+			case 3:
+				ops = append(ops, aop{"flag", []int{0, 0}})
+			}
+			ops = append(ops, aop{"end", []int{9}})
+			ac.branches = append(ac.branches, ops)
+		}
+		ac.nt = held >= 2 && flagged
+		emitAna(c, ac)
+	}
+}
+
 // ---------------------------------------------------------------- main
 
 func main() {
@@ -861,24 +941,29 @@ func main() {
 	exhaustive(c, 1, 3, days)
 	exhaustive(c, 1, 4, days)
 	exhaustive(c, 2, 2, days)
+	exhaustive(c, 2, 3, days)
 	if c.Thorough() {
-		exhaustive(c, 2, 3, days)
 		exhaustive(c, 1, 5, days)
 		exhaustive(c, 3, 2, days)
 	}
-	for i := c.Count(4000, 60000); i > 0; i-- {
+	exhaustiveAna(c, 2)
+	exhaustiveAna(c, 3)
+	if c.Thorough() {
+		exhaustiveAna(c, 4)
+	}
+	for i := c.Count(12000, 300000); i > 0; i-- {
 		emitFile(c, randFile(c, "rand"))
 	}
-	for i := c.Count(400, 4000); i > 0; i-- {
+	for i := c.Count(1000, 20000); i > 0; i-- {
 		emitFile(c, randFile(c, "unequal"))
 	}
-	for i := c.Count(400, 4000); i > 0; i-- {
+	for i := c.Count(1000, 20000); i > 0; i-- {
 		emitFile(c, randFile(c, "nil"))
 	}
-	for i := c.Count(2500, 40000); i > 0; i-- {
+	for i := c.Count(8000, 200000); i > 0; i-- {
 		emitAna(c, randAna(c, "ana"))
 	}
-	for i := c.Count(300, 3000); i > 0; i-- {
+	for i := c.Count(800, 20000); i > 0; i-- {
 		emitAna(c, randAna(c, "ana-bad"))
 	}
 }
